@@ -150,4 +150,13 @@ theorem upgrade_install_forwards_dry_run :
        ("SkipCRDs", "client.SkipCRDs"), ("TakeOwnership", "client.TakeOwnership"), ("HideSecret", "client.HideSecret")] = true := by
   decide
 
+/-- `--dry-run` is bound to the dry-run option of install and upgrade and to the dry-run switch of rollback and
+uninstall, and to nothing else (regenerated from pkg/cmd at every run). -/
+theorem dry_run_flag_bound :
+    Helm.Spec.forwardsAll Helm.Gen.installFlags [("dry-run", "client.DryRunOption")] = true ∧
+    Helm.Spec.forwardsAll Helm.Gen.upgradeFlags [("dry-run", "client.DryRunOption")] = true ∧
+    Helm.Spec.forwardsAll Helm.Gen.rollbackFlags [("dry-run", "client.DryRun")] = true ∧
+    Helm.Spec.forwardsAll Helm.Gen.uninstallFlags [("dry-run", "client.DryRun")] = true := by
+  decide
+
 end Helm.Props.C06
